@@ -7,10 +7,13 @@ REPS = [":", "a", "Z", "_", "0", "-", ".", "·", "̀", "⻿", "⿯", ";", " ",
         "\U00010000", "x", "m", "l", "M"]
 # ... and the DOM factories create_processing_instruction / create_element / create_attribute / create_entity_reference (round-7
 # seeds C18-I, C18-J: a factory that trusts the parser for what the parser does not check)
-KINDS = ["ncname", "qname", "element", "attr", "pi", "entity", "dom-pi", "dom-elem", "dom-attr", "dom-entref"]
+KINDS = ["ncname", "qname", "element", "attr", "pi", "entity", "dom-pi", "dom-elem", "dom-attr", "dom-entref",
+         # names in declarations (round-9 seed C18-M read the attribute name of an attribute-list declaration with the lax reader of
+         # PI targets and entity names)
+         "decl-attr", "doctype-name"]
 SPEC_OF = {"ncname": "spec-ncname", "qname": "spec-qname", "element": "spec-qname", "attr": "spec-attr",
            "pi": "spec-pitarget", "entity": "spec-name", "dom-pi": "spec-pitarget", "dom-elem": "spec-qname", "dom-attr": "spec-qname",
-           "dom-entref": "spec-dom-entref"}
+           "dom-entref": "spec-dom-entref", "decl-attr": "spec-qname", "doctype-name": "spec-qname"}
 
 
 def strings(maxlen):
